@@ -547,3 +547,135 @@ pub mod socks {
         Ok((n, source, data))
     }
 }
+
+/// A byte stream with a fixed peer address (what the codecs ask of a TCP/TLS stream)
+pub mod io {
+    use crate::net_utils::PeerAddr;
+    use std::net::SocketAddr;
+    use std::pin::Pin;
+    use std::task::{Context, Poll};
+    use tokio::io::{AsyncRead, AsyncWrite, ReadBuf};
+
+    pub struct FixedPeerIo<IO> {
+        pub io: IO,
+        pub peer: SocketAddr,
+    }
+
+    impl<IO> PeerAddr for FixedPeerIo<IO> {
+        fn peer_addr(&self) -> std::io::Result<SocketAddr> {
+            Ok(self.peer)
+        }
+    }
+
+    impl<IO: AsyncRead + Unpin> AsyncRead for FixedPeerIo<IO> {
+        fn poll_read(
+            mut self: Pin<&mut Self>,
+            cx: &mut Context<'_>,
+            buf: &mut ReadBuf<'_>,
+        ) -> Poll<std::io::Result<()>> {
+            Pin::new(&mut self.io).poll_read(cx, buf)
+        }
+    }
+
+    impl<IO: AsyncWrite + Unpin> AsyncWrite for FixedPeerIo<IO> {
+        fn poll_write(
+            mut self: Pin<&mut Self>,
+            cx: &mut Context<'_>,
+            buf: &[u8],
+        ) -> Poll<std::io::Result<usize>> {
+            Pin::new(&mut self.io).poll_write(cx, buf)
+        }
+
+        fn poll_flush(mut self: Pin<&mut Self>, cx: &mut Context<'_>) -> Poll<std::io::Result<()>> {
+            Pin::new(&mut self.io).poll_flush(cx)
+        }
+
+        fn poll_shutdown(
+            mut self: Pin<&mut Self>,
+            cx: &mut Context<'_>,
+        ) -> Poll<std::io::Result<()>> {
+            Pin::new(&mut self.io).poll_shutdown(cx)
+        }
+    }
+}
+
+pub mod demux {
+    use super::ctx::Ctx;
+    use crate::core::verif_hooks_codec;
+    use crate::net_utils::Channel;
+    use crate::settings::{Settings, TlsHostsSettings};
+    use crate::tls_demultiplexer::{Protocol, TlsDemux};
+    use std::sync::Arc;
+
+    #[derive(Debug, Clone, PartialEq, Eq)]
+    pub struct View {
+        /// 0 tunnel, 1 ping, 2 speedtest, 3 reverse proxy
+        pub channel: u8,
+        /// 1, 2, 3
+        pub protocol: u8,
+        pub cert_chain_path: String,
+        pub sni_auth_creds: Option<String>,
+    }
+
+    fn view(m: crate::tls_demultiplexer::ConnectionMeta) -> View {
+        View {
+            channel: match m.channel {
+                Channel::Tunnel => 0,
+                Channel::Ping => 1,
+                Channel::Speedtest => 2,
+                Channel::ReverseProxy => 3,
+            },
+            protocol: match m.protocol {
+                Protocol::Http1 => 1,
+                Protocol::Http2 => 2,
+                Protocol::Http3 => 3,
+            },
+            cert_chain_path: m.cert_chain_path,
+            sni_auth_creds: m.sni_auth_creds,
+        }
+    }
+
+    /// `TlsDemux::new` + `select`
+    pub fn select(
+        settings: &Settings,
+        hosts: &TlsHostsSettings,
+        alpn: &[Vec<u8>],
+        sni: &str,
+    ) -> Result<Result<View, String>, String> {
+        let demux = TlsDemux::new(settings, hosts).map_err(|e| e.to_string())?;
+        Ok(demux
+            .select(alpn.iter().map(Vec::as_slice), sni.to_string())
+            .map(view))
+    }
+
+    /// `select` on the demultiplexer currently installed in the context
+    pub fn select_current(ctx: &Ctx, alpn: &[Vec<u8>], sni: &str) -> Result<View, String> {
+        verif_hooks_codec::tls_demux(&ctx.0)
+            .read()
+            .unwrap()
+            .select(alpn.iter().map(Vec::as_slice), sni.to_string())
+            .map(view)
+    }
+
+    /// `Core::reload_tls_hosts_settings`
+    pub fn reload(ctx: &Ctx, hosts: TlsHostsSettings) -> bool {
+        verif_hooks_codec::reload(&ctx.0, hosts).is_ok()
+    }
+
+    /// `Core::make_tcp_http_codec` over an in-memory stream: Ok(()) = codec created
+    pub fn make_tcp_http_codec(protocol: u8, settings: Arc<Settings>) -> Result<(), String> {
+        let (a, _b) = tokio::io::duplex(1024);
+        let io = super::io::FixedPeerIo {
+            io: a,
+            peer: "198.51.100.7:40000".parse().unwrap(),
+        };
+        let p = match protocol {
+            1 => Protocol::Http1,
+            2 => Protocol::Http2,
+            _ => Protocol::Http3,
+        };
+        verif_hooks_codec::make_tcp_http_codec(p, settings, io)
+            .map(|_| ())
+            .map_err(|e| e.to_string())
+    }
+}
